@@ -65,19 +65,20 @@ def build_inner(sc):
         elif em == "stub":
             est = StubEstimator(stub_bounds(sc))
         kw = {}
+        late = bool(p.get("estimate_late"))      # the estimator is handed over at construction, estimation is switched on later (public attribute)
         if est is not None:
-            kw.update(estimate_max_rate=True, max_rate_estimator=est)
+            kw.update(estimate_max_rate=not late, max_rate_estimator=est)
         if p.get("uninterrupted", False):
             kw["uninterrupted_charging"] = True
         positional = sub(sc.get("seed", 0), "algo_call_form").random() < 0.25
         if k == "greedy":
             if positional:
                 # arguments by position, in the released order (sort_fn, estimate_max_rate, max_rate_estimator, uninterrupted_charging)
-                return sut.SortedSchedulingAlgo(sut.SORTS[p["sort"]], est is not None, est, bool(p.get("uninterrupted", False)))
+                return sut.SortedSchedulingAlgo(sut.SORTS[p["sort"]], est is not None and not late, est, bool(p.get("uninterrupted", False)))
             return sut.SortedSchedulingAlgo(sut.SORTS[p["sort"]], **kw)
         if positional:
             # released order: (sort_fn, estimate_max_rate, max_rate_estimator, uninterrupted_charging, continuous_inc)
-            return sut.RoundRobin(sut.SORTS[p["sort"]], est is not None, est, bool(p.get("uninterrupted", False)), p.get("continuous_inc", 1))
+            return sut.RoundRobin(sut.SORTS[p["sort"]], est is not None and not late, est, bool(p.get("uninterrupted", False)), p.get("continuous_inc", 1))
         if p.get("continuous_inc", 1) != 0.1:         # (0.1 is the library's documented default: left implicit)
             kw["continuous_inc"] = p.get("continuous_inc", 1)
         return sut.RoundRobin(sut.SORTS[p["sort"]], **kw)
@@ -328,6 +329,15 @@ class Party(sut.BaseAlgorithm):
         rec = {"t": t, "inv": self.ninv, "fault": fk, "completed": False}
         self.calls.append(rec)
         ctx.log(("invoke", t, fk))
+        rt_ = self.sc["party"].get("retune")
+        if rt_ and self.inner is not None and self.ninv >= rt_["at_call"] and not getattr(self, "_retuned", False):
+            # the operator re-tunes the algorithm object between two calls through its public attributes
+            for k_, v_ in rt_["set"].items():
+                setattr(self.inner, k_, v_)
+            self._retuned = True
+            ctx.fired("algorithm_retuned")
+        if self.inner is not None:
+            rec["opts"] = {k_: getattr(self.inner, k_) for k_ in ("continuous_inc", "estimate_max_rate", "uninterrupted_charging") if hasattr(self.inner, k_)}
         if fk == "crash" and fault.get("when", "before") == "before":
             ctx.fired("crash")
             rec["crashed"] = True
